@@ -25,7 +25,9 @@ GROUPS = {
     # masks and filters against reordering and subtraction
     "mask": {"SetMask", "SetMaskBad", "LowPass", "HighPass", "SubtractArray", "Swap", "Duplicate"},
     # export / import / copies
-    "dict": {"ToDict", "DropKey", "ToV1", "FromDict", "Duplicate", "Average", "Swap", "SubtractArray", "SubtractScalar"},
+    "dict": {"ToDict", "DropKey", "ToV1", "FromDict", "Duplicate", "Average", "Swap", "SubtractArray", "SubtractScalar", "SetMask"},
+    # repeated imports of one exported dictionary (current and version-1 layout), one-point spectra
+    "reimport": {"ToDict", "DropKey", "ToV1", "FromDict", "SetMask", "Swap"},
 }
 
 
@@ -337,10 +339,10 @@ def run(tier: str, seed: int) -> int:
     # 2. every history, replayed into the implementation
     #    (N, MaxHist, action group, simple masks)
     if tier == "quick":
-        plans = [(2, 3, "all", True), (2, 2, "all", False), (2, 3, "mask", True), (2, 4, "dict", True)]
+        plans = [(2, 3, "all", True), (2, 2, "all", False), (2, 3, "mask", True), (2, 4, "dict", True), (1, 5, "reimport", True)]
     else:
         plans = [(2, 3, "all", False), (3, 3, "all", True), (3, 3, "mask", True), (2, 4, "mask", True),
-                 (2, 5, "dict", True), (3, 4, "dict", True)]
+                 (2, 5, "dict", True), (3, 4, "dict", True), (1, 6, "reimport", True)]
     for n, h, group, simple in plans:
         res = run_tlc("DataSet", cfg_text(n, h, True, group, simple), dump=True, timeout=3600)
         try:
